@@ -55,6 +55,55 @@ theorem selfLexing_step (a : List Nat) (h : selfLexing a = true) :
       | cons x r' => cases h
       | nil =>
         simp only [beq_iff_eq] at h
-        sorry
+        have inv := lexStep_tok_inv _ _ _ _ _ hs
+        obtain ⟨k, x, b, p⟩ := t
+        simp only at h inv ⊢
+        have h1 := inv.bol
+        have h2 := inv.sp
+        simp only at h1 h2
+        subst h; subst h1; subst h2
+        rfl
+
+theorem selfLexing_of_step (c : Nat) (a : List Nat) (k : Kind) (b p : Bool)
+    (h : lexStep (c :: a) b p = .tok ⟨k, c :: a, b, p⟩ []) : selfLexing (c :: a) = true := by
+  have := lexStep_append c a [] k b p true false h (noFuse_nil c a)
+  rw [List.append_nil] at this
+  unfold selfLexing
+  rw [this]
+  simp
+
+/-- the step on a self-lexing spelling followed by anything that does not fuse with it -/
+theorem selfLexing_append (a rest : List Nat) (h : selfLexing a = true)
+    (hf : ∀ c a', a = c :: a' → noFuse c a' rest) (bol sp : Bool) :
+    lexStep (a ++ rest) bol sp = .tok ⟨kindOf a, a, bol, sp⟩ rest := by
+  obtain ⟨c, a', rfl, hs⟩ := selfLexing_step a h
+  exact lexStep_append c a' rest _ true false bol sp hs (hf c a' rfl)
+
+/-! ### blanks -/
+
+/-- a separator as `print_tokens` writes them: blanks and newlines only -/
+def isBlank (w : List Nat) : Bool := w.all (fun r => r == 32 || r == 10)
+
+/-- `at_bol` / `has_space` after scanning the blank string `w` from the state `(bol, sp)` -/
+def blankFlags : List Nat → Bool × Bool → Bool × Bool
+  | [], f => f
+  | r :: w, f => blankFlags w (if r == 10 then (true, false) else (f.1, true))
+
+theorem lexStep_blank (r : Nat) (t : List Nat) (bol sp : Bool) (hr : r = 32 ∨ r = 10) :
+    lexStep (r :: t) bol sp = .skip t (if r == 10 then (true, false) else (bol, true)).1
+      (if r == 10 then (true, false) else (bol, true)).2 := by
+  rcases hr with rfl | rfl <;> rfl
+
+/-- scanning a blank prefix costs one iteration per character and only changes the flags -/
+theorem lexLoop_blank (w : List Nat) (hw : isBlank w = true) : ∀ (n : Nat) (s : List Nat) (f : Bool × Bool),
+    lexLoop (n + w.length) (w ++ s) f.1 f.2 = lexLoop n s (blankFlags w f).1 (blankFlags w f).2 := by
+  induction w with
+  | nil => intro n s f; rfl
+  | cons r w ih =>
+    intro n s f
+    simp only [isBlank, List.all_cons, Bool.and_eq_true, Bool.or_eq_true, beq_iff_eq] at hw
+    have hw' : isBlank w = true := by simpa [isBlank] using hw.2
+    rw [List.length_cons, ← Nat.add_assoc, List.cons_append, lexLoop, lexStep_blank r _ _ _ hw.1]
+    exact ih hw' n s _
 
 end ChibiVerif.Lex
